@@ -434,6 +434,42 @@ def rule_definite_assignment(ctx):
                          "local %r may be read before it is assigned (guards %s): UnboundLocalError instead of a cutplace error" % (name, valuation or "none"))
 
 
+def rule_none_arguments(ctx):
+    """
+    X-NONE: ``assert x is not None`` is exempt from the assert triage because it restates the calling convention.  Here
+    the convention is checked at the callers: no call site reachable from the API hands a value that may be None by
+    construction (an attribute filled from a default-None constructor parameter such as CutplaceError.location, a
+    default-None parameter of the caller, the literal) to a parameter its callee asserts, unless a test on the same
+    expression dominates the call.
+    """
+    import ast as _ast
+
+    from ..model import Model
+    from ..xnone import NoneFlow
+
+    model = ctx.model
+    escape, _ = analysis(model)
+    reachable = escape.reachable(list(ENTRY_POINTS))
+    ctx.res.minimum("O10.none", 1)
+    flow = NoneFlow(model, escape.graph)
+    findings, judged = flow.findings(reachable)
+    if judged < 40:
+        ctx.res.error("X-NONE judged only %d argument(s) of not-None parameters" % judged)
+    # positive example: CutplaceError.location must be known as possibly None on every run
+    location_reason = flow._attribute_reason(model.cls("cutplace.errors.InterfaceError"), "location")
+    if location_reason is None:
+        ctx.res.error("X-NONE no longer sees that CutplaceError.location may be None")
+    what = "no possibly-None value reaches a parameter that is asserted to be not None (%d arguments judged)" % judged
+    if not findings:
+        ctx.res.ok("O10.none", what, True, {"arguments_judged": judged, "nullable_attributes": {
+            name: sorted(attrs) for name, attrs in flow.nullable.items() if attrs}})
+    for func, call, target, parameter, text, reason in findings:
+        ctx.res.fail("O10.none", what, "%s:O10.none:%s(%s=%s)" % (func.qualname.replace("cutplace.", ""), target.qualname.replace("cutplace.", ""), parameter, text),
+                     "%s:%d (%s)" % (func.module.relpath, call.lineno, func.qualname.replace("cutplace.", "")),
+                     "%s is passed as %s of %s, which asserts it is not None; it may be None: %s - AssertionError instead of a cutplace error"
+                     % (text, parameter, target.qualname.replace("cutplace.", ""), reason))
+
+
 def rule_field_rows(ctx):
     """Field rows of a CID: every combination of mark, length shape, example and format is accepted or an InterfaceError."""
     from .c09 import rule_field_row
@@ -443,4 +479,4 @@ def rule_field_rows(ctx):
 
 from .common import rule_module_state, rule_undefined_attributes  # noqa: E402
 
-RULES = [rule_escapes, rule_main_mapping, rule_oserror_stays_oserror, rule_range_constructors, rule_setters, rule_field_rows, rule_delimited_error_helper, rule_definite_assignment, rule_undefined_attributes, rule_module_state]
+RULES = [rule_escapes, rule_main_mapping, rule_oserror_stays_oserror, rule_range_constructors, rule_setters, rule_field_rows, rule_delimited_error_helper, rule_definite_assignment, rule_none_arguments, rule_undefined_attributes, rule_module_state]
